@@ -276,9 +276,49 @@ impl Display for Expr {
             if let Some(ref left) = self.left {
                 fmt.write_str(&left.to_string())?;
             }
+            if let Some(ref args) = self.args {
+                for arg in args {
+                    fmt.write_str(", ")?;
+                    fmt.write_str(&arg.to_string())?;
+                }
+            }
             fmt.write_char(')')?;
         } else if let Some(ref left) = self.left {
-            fmt.write_str(&left.to_string())?;
+            // This text is the key of the per-row value cache (and the column name in JSON output):
+            // it must tell `size + 1` from `size * 1` and `(a - b) - c` from `a - (b - c)`.
+            let operator = if let Some(ref op) = self.arithmetic_op {
+                Some(match op {
+                    ArithmeticOp::Add => String::from("+"),
+                    ArithmeticOp::Subtract => String::from("-"),
+                    ArithmeticOp::Multiply => String::from("*"),
+                    ArithmeticOp::Divide => String::from("/"),
+                    ArithmeticOp::Modulo => String::from("%"),
+                })
+            } else if let Some(ref op) = self.op {
+                Some(format!("{:?}", op))
+            } else {
+                self.logical_op.as_ref().map(|op| format!("{:?}", op))
+            };
+
+            match operator {
+                Some(operator) => {
+                    fmt.write_char('(')?;
+                    fmt.write_str(&left.to_string())?;
+                    fmt.write_char(' ')?;
+                    fmt.write_str(&operator)?;
+                    if let Some(ref right) = self.right {
+                        fmt.write_char(' ')?;
+                        fmt.write_str(&right.to_string())?;
+                    }
+                    fmt.write_char(')')?;
+                }
+                None => {
+                    fmt.write_str(&left.to_string())?;
+                    if let Some(ref right) = self.right {
+                        fmt.write_str(&right.to_string())?;
+                    }
+                }
+            }
         }
 
         if let Some(ref field) = self.field {
@@ -287,10 +327,6 @@ impl Display for Expr {
 
         if let Some(ref val) = self.val {
             fmt.write_str(val)?;
-        }
-
-        if let Some(ref right) = self.right {
-            fmt.write_str(&right.to_string())?;
         }
 
         Ok(())
